@@ -17,9 +17,9 @@ func init() { register("C17", propC17) }
 
 func propC17() *Property {
 	return &Property{
-		ID:      "C17",
-		Decides: "R17.1 the hardware path is the instruction its name says: in every assembly file of pkg/mathext the pdep/pext routines load x and mask from their declared frame slots, execute exactly one PDEPQ/PEXTQ with the mask in the mask operand and x in the source operand, and store the destination to the result slot; init installs pdepBMI2 as pdepImpl and pextBMI2 as pextImpl (not crossed) only under cpu.X86.HasBMI2; R17.2 validation precedes the codec (codec-parameter validation at the head of encoder and decoder, metadata validation before decode, and in Unmarshal before any field is stored); R17.3 tables: mode parameters, chunk length, rotation validity set and direction, and the encoded-length law ceil(N/C)*8 with its uint16 bound (folded for boundary N); R17.4 canonical padding: the decoder's per-chunk acceptance predicate, folded over padding polarity x padding value, accepts only all-zero padding for polarity 0 and all-one padding for polarity 1, for the first and for later chunks.",
-		NotDecided: "that decode(encode(x)) == x and that the portable loops equal PDEP/PEXT for all inputs (numerical bijection claims over 2^128 inputs — not a static property in reach); the random mask generator's distribution.",
+		ID:          "C17",
+		Decides:     "R17.1 the hardware path is the instruction its name says: in every assembly file of pkg/mathext the pdep/pext routines load x and mask from their declared frame slots, execute exactly one PDEPQ/PEXTQ with the mask in the mask operand and x in the source operand, and store the destination to the result slot; init installs pdepBMI2 as pdepImpl and pextBMI2 as pextImpl (not crossed) only under cpu.X86.HasBMI2; R17.2 validation precedes the codec (codec-parameter validation at the head of encoder and decoder, metadata validation before decode, and in Unmarshal before any field is stored); R17.3 tables: mode parameters, chunk length, rotation validity set and direction, and the encoded-length law ceil(N/C)*8 with its uint16 bound (folded for boundary N); R17.4 canonical padding: the decoder's per-chunk acceptance predicate, folded over padding polarity x padding value, accepts only all-zero padding for polarity 0 and all-one padding for polarity 1, for the first and for later chunks.",
+		NotDecided:  "that decode(encode(x)) == x and that the portable loops equal PDEP/PEXT for all inputs (numerical bijection claims over 2^128 inputs — not a static property in reach); the random mask generator's distribution.",
 		Assumptions: []string{"the Go assembler's operand order for PDEPQ/PEXTQ is (mask, source, destination)"},
 		Rules: []Rule{
 			{ID: "R17.1", Floor: 3, Text: "assembly routines and their installation", Run: r17_1},
